@@ -17,3 +17,5 @@
 // std: Option<&T>::copied (the definition in core)
 pub assume_specification<'a, T: Copy>[ Option::<&'a T>::copied ](o: Option<&'a T>) -> (r: Option<T>)
     ensures r == (match o { Some(x) => Some(*x), None => None::<T> });
+// R26v: the element a consuming `for x in vec` loop moves out at position i
+#[verifier::external_body] pub fn vx_vec_take<T>(v: &Vec<T>, i: usize) -> (r: T) requires i < v@.len() ensures r == v@[i as int] { unimplemented!() }
